@@ -75,6 +75,7 @@ def property_checks(inp):
     npr = numpy.random.default_rng(inp["data_seed"])
     N, wvl, d, z = inp["N"], inp["wvl"], inp["d1"], inp["z"]
     U = oc.rand_field(npr, N)
+    Ukeep = U.copy()
     out = []
     A = out.append
     par = "evenN" if N % 2 == 0 else "oddN"
@@ -114,6 +115,14 @@ def property_checks(inp):
     phimax = k / (2 * abs(f)) * 2 * x2max ** 2
     A(("lensAgainst = oneStepFresnel o lens phase", oc.relerr(op.lensAgainst(U, wvl, d, f),
         op.oneStepFresnel(U * numpy.exp(-1j * k / (2 * f) * (X ** 2 + Y ** 2)), wvl, d, f)), 1e-9 + 1e-14 * phimax))
+    # the field passed in is still that field afterwards (every law above is a statement about it), whatever the call order
+    A(("the propagators leave the input field untouched/%s" % par, 0.0 if numpy.array_equal(U, Ukeep) else 1.0, 0.0))
+    W = Ukeep.copy()
+    r_as = op.angularSpectrum(W, wvl, d, m * d, z); r_two = op.twoStepFresnel(W, wvl, d, m * d, z); r_one = op.oneStepFresnel(W, wvl, d, z); r_len = op.lensAgainst(W, wvl, d, f)
+    W2 = Ukeep.copy()
+    q_len = op.lensAgainst(W2, wvl, d, f); q_one = op.oneStepFresnel(W2, wvl, d, z); q_two = op.twoStepFresnel(W2, wvl, d, m * d, z); q_as = op.angularSpectrum(W2, wvl, d, m * d, z)
+    A(("results do not depend on the order in which the propagators are called on one field/%s" % par,
+       0.0 if all(numpy.array_equal(x_, y_, equal_nan=True) for x_, y_ in ((r_as, q_as), (r_two, q_two), (r_one, q_one), (r_len, q_len))) else 1.0, 0.0))
     if inp.get("gauss"):
         gaussian_checks(inp, A)
     return out
